@@ -167,3 +167,29 @@ def sr_L(x, n, k, rm):
 def sr_away(x, n, k, rm, r):
     """does draw r in [0, 2^k) round x (not on the grid) away from zero?"""
     return r + sr_L(x, n, k, rm) >= pow2(k)
+
+
+# ---------------------------------------------------------------------------
+# order of dyadic values (by alignment at the smaller exponent)
+
+def mag_lt(x, y):
+    """|x| < |y| by alignment at the smaller exponent"""
+    e0 = ite(x._exp <= y._exp, x._exp, y._exp)
+    return x._c * pow2(x._exp - e0) < y._c * pow2(y._exp - e0)
+
+
+def mag_eq(x, y):
+    e0 = ite(x._exp <= y._exp, x._exp, y._exp)
+    return x._c * pow2(x._exp - e0) == y._c * pow2(y._exp - e0)
+
+
+def dy_lt(x, y):
+    """x < y as real numbers (the two zeros are equal)"""
+    return ite(x._s == y._s,
+               ite(x._s, mag_lt(y, x), mag_lt(x, y)),
+               ite(x._s, x._c > 0 or y._c > 0, False))
+
+
+def dy_eqv(x, y):
+    """x == y as real numbers (the two zeros are equal)"""
+    return ite(x._s == y._s, mag_eq(x, y), x._c == 0 and y._c == 0)
